@@ -172,3 +172,77 @@ func verifHarness_C01_stepHandleResponse() {
 	vAssert(vWGCount(&p.inFlight) == len(all)-terminal, "inflight-matches-non-terminal-messages")
 	vReach()
 }
+
+// C01 (sync producer): SendMessage / SendMessages return, for each message, exactly the
+// outcome of that message — over the real pipeline, the simulated cluster and fault scripts.
+func verifHarness_C01_syncProducer() {
+	vConfig("delay", 0)
+	conf := NewConfig()
+	conf.Producer.Return.Successes = true
+	conf.Producer.Return.Errors = true
+	conf.Producer.Retry.Max = vChoose("retryMax", 3)
+	conf.Producer.Retry.Backoff = 0
+	conf.Producer.Partitioner = NewManualPartitioner
+	parts := 1 + vChoose("partitions", 2)
+	cl := vNewCluster(conf, 1, parts, 2)
+	cl.faultMenu = vfKinds
+	cl.release = make(chan struct{})
+	client := &vFakeClient{conf: conf, cl: cl}
+	vOverride("(*Broker).Produce", cl.produce)
+	vOverride("(*Broker).Close", func(b *Broker) error { return nil })
+	vAssert(verifyProducerConfig(conf) == nil, "config-accepted")
+	pi, err := newAsyncProducer(client)
+	vAssume(err == nil)
+	sp := newSyncProducerFromAsyncProducer(pi.(*asyncProducer))
+	batch := vChoose("batchCall", 2) == 1
+	n := 2
+	var msgs []*ProducerMessage
+	for i := 0; i < n; i++ {
+		msgs = append(msgs, &ProducerMessage{Topic: "t", Partition: int32(i % parts), Value: ByteEncoder{byte(i + 1)}})
+	}
+	outcome := make([]error, n)
+	if batch {
+		err := sp.SendMessages(msgs)
+		if err != nil {
+			perrs, ok := err.(ProducerErrors)
+			vAssert(ok, "batch-error-is-a-list-of-per-message-errors")
+			for _, pe := range perrs {
+				found := false
+				for i, m := range msgs {
+					if pe.Msg == m {
+						vAssert(outcome[i] == nil, "one-error-per-message")
+						outcome[i] = pe.Err
+						found = true
+					}
+				}
+				vAssert(found, "errors-name-submitted-messages")
+			}
+		}
+	} else {
+		for i, m := range msgs {
+			p, off, err := sp.SendMessage(m)
+			outcome[i] = err
+			if err == nil {
+				vAssert(p == m.Partition && off == m.Offset, "returned-partition-and-offset-are-the-message's")
+			} else {
+				vAssert(p == -1 && off == -1, "failed-send-returns-no-position")
+			}
+		}
+	}
+	// each message's reported outcome is that message's outcome at the broker
+	for i, m := range msgs {
+		inLog := 0
+		for _, e := range cl.logs[m.Partition] {
+			if e.id == byte(i+1) {
+				inLog++
+			}
+		}
+		if outcome[i] == nil {
+			vAssert(inLog >= 1, "success-means-written")
+			vAssert(m.Offset >= 0 && int(m.Offset) < len(cl.logs[m.Partition]) && cl.logs[m.Partition][m.Offset].id == byte(i+1), "success-offset-holds-the-message")
+		}
+	}
+	vAssert(sp.Close() == nil, "close-completes")
+	vCover("some-failure", outcome[0] != nil || outcome[1] != nil)
+	vReach()
+}
